@@ -200,9 +200,9 @@ func firstFrames(stack string) string {
 
 var tokens = map[string][]string{
 	"srt":  {"\n", "1", "00:00:01,000", " --> ", "x", "-->", " ", "<i>", "</i>", "&", "\r", "00:00:02.5"},
-	"vtt":  {"\n", "WEBVTT", "00:01.000", " --> ", "x", "NOTE ", "STYLE", "Region: id=r", " region:r", "<v a>", "<00:01.500>", " align:left", "1"},
+	"vtt":  {"\n", "WEBVTT", "00:01.000", " --> ", "x", "NOTE ", "STYLE", "Region: id=r", " region:r", "<v a>", "<00:01.500>", " align:left", "1", "::cue {", "}"},
 	"ssa":  {"\n", "[Events]", "Format: Start, End, Text", "Dialogue: ", "0:00:01.00", ",", "x", ":", "[V4 Styles]", "Format: Name, Bold", "Style: ", "[Script Info]", "Title: t"},
-	"ttml": {"<tt>", "</tt>", "<body><div>", "</div></body>", "<p begin=\"1s\" end=\"2s\">", "</p>", "x", "<p>", "<span>", "</span>", "<br/>", "<p begin=\"00:00:01\" dur=\"1s\">", "<head><styling><style xml:id=\"a\" style=\"b\"/></styling></head>"},
+	"ttml": {"<tt>", "</tt>", "<body><div>", "</div></body>", "<p begin=\"1s\" end=\"2s\">", "</p>", "x", "<p>", "<span>", "</span>", "<br/>", "<p begin=\"00:00:01\" dur=\"1s\">", "<head><styling><style xml:id=\"a\" style=\"b\"/></styling></head>", "<![CDATA[", "<!--"},
 }
 
 var replBytes = []byte{0x00, '\n', '\r', ' ', '-', '>', '<', ':', ',', '"', 0x80, 0xFF}
